@@ -6,7 +6,9 @@
                                      (children ("A" _) ("QLabel" "text"))) …) …)
          (sources (("a" "b") "X") …))
 
-  A directory is the list of its path components below the root of the tree; `_` = no binding.
+  A directory is the list of its path components below the root of the tree; `_` = no binding.  An entry of `(qt …)`
+  may carry a 4th element `layout` or `action` (the class derives from QLayout resp. QAction).  `widgets` lists the root
+  object and then the children that resolve, in document order; a child that is an action is reported as "QAction".
   Answer (everything that came out of a map is sorted):
 
     (c18 (dirs "" "a" "a/b" …)
@@ -60,8 +62,14 @@ private def dir? : Sexp → Option Dir
   | .list (.atom "dir" :: p :: files) => do pure { path := ← path? p, files := ← Sexp.mapM? file? files }
   | _ => none
 
+/-- `(name derivesQWidget (props…))`, optionally followed by `layout` or `action` (a class that derives from QLayout
+    resp. QAction; older requests have three-element entries only) -/
 private def qt? : Sexp → Option QtClass
   | .list [n, w, .list ps] => do pure { name := ← str? n, isWidget := ← Sexp.toBool? w, props := ← Sexp.mapM? str? ps }
+  | .list [n, w, .list ps, .atom "layout"] => do
+    pure { name := ← str? n, isWidget := ← Sexp.toBool? w, props := ← Sexp.mapM? str? ps, isLayout := true }
+  | .list [n, w, .list ps, .atom "action"] => do
+    pure { name := ← str? n, isWidget := ← Sexp.toBool? w, props := ← Sexp.mapM? str? ps, isAction := true }
   | _ => none
 
 private def source? : Sexp → Option (Path × String)
